@@ -14,8 +14,8 @@ META = {
     "technique": "Rocq proofs over hand-written Gallina models: (1) util/num/bigint.rs (Natural as u64 digit list + binary exponent, the carry / shift / strip algorithms at digit level): representation invariant preserved and every operation equals the N operation on val = mantissa * 2^exp, NaN exactly where documented; (2) Saturating<uW>; (3) the three sat_count_edge recursions and SatCountCache: exact counts, exact halvings, and transparency of a cache object reused across arbitrary histories for every number type; (4) Natural -> f64, the Octal/Hex digit loop and the number handed to the decimal printer; (5) util/num/mod.rs F64 as Flocq binary64 (IEEE754.Binary: b64_plus/b64_minus/b64_mult mode_NE, binary_normalize) with exp2 on integer arguments as the correctly rounded power of two, instantiated in the number interface of the counting recursion (MIN_EXP scaling included) and related to the exact run by a simulation. Tie to the code: lock-step differential runs of the extracted Natural/Saturating model against the real oxidd_core::util::num::{Natural, Saturating, F64} with an independent Zarith oracle (release and debug builds), and sat_count on real BDD/BCDD/ZBDD managers with one SatCountCache per number type reused across gc / reorder / recycled node ids / added variables / changing vars, every result compared with the exact count of the handle's value table; (6) caller-side cache objects kept over arbitrary manager histories (coq/DD/SatCache.v: gc / reorder / growth events with the counters as the managers maintain them; invariant-based proof that every served count is the uncached one; refutation of every weakening of the tag rule), tied to the code by replaying every call on kept caches with the extracted sat_query over the extracted number-type models and comparing value and cache map entry by entry",
     "category": "proof",
     "design_ref": "DESIGN.md section 5, C12",
-    "level_text": "116 theorems in coq/Props/C12.v (checked by coqc on every run, Print Assumptions audited: 86 closed under the global context; the 30 floating-point theorems C12_nat_to_f64*, C12_f64_*, C12_sat_f64* depend on Flocq's classical axioms only, allow-listed by name). Natural (C12_nat_*), for unbounded operands satisfying the representation invariant Inv (which implies the code's check_inv and is decidable): nat_add = exact sum, NaN iff an operand is NaN or the exponent of the sum reaches u64::MAX; shl = multiplication by 2^k (NaN iff exponent overflow); shr = exact quotient, NaN iff a 1 bit would be shifted out; partial_cmp = order of the denoted numbers (None iff NaN); eq and the hashed data are canonical (equal iff same number, NaN = NaN); From<u8..u128> and from_le_digits denote their argument; TryFrom -> u64/u128 is Some iff the number fits; bit_width = 1 + floor(log2); the Binary output is `?` exactly for NaN and otherwise the bits of the number without leading zeros; every operation preserves Inv. Saturating<uW> (C12_su_*): add and << return the exact result below the marker T::MAX and the marker otherwise, the marker absorbs, >> and - of in-range values are exact. sat_count (C12_sat_*): the BDD / BCDD / ZBDD recursions in exact arithmetic return 2^(vars-levels) * #satisfying assignments; every halving (a+b)>>1 is exact; the in-call cache and a cache object reused over any history of calls (other handles, gc, reordering, added variables, other vars; hypothesis: equal gc_count of consecutive calls means the node table was only extended) are transparent for EVERY number type, hence exact counts for whole histories; an entry is used only under the (gc_count, vars) it was stored under; Saturating<uW> runs: BDD and BCDD exact while 2^vars is representable and the marker otherwise (0 stays 0), ZBDD exact while the count is representable and the marker otherwise. Text (C12_nat_fmt_*): Octal / LowerHex / UpperHex (the digit loop fmt_pow2 for every 1 <= bits per digit <= 63) write `?` exactly for NaN and otherwise the digits of the number in base 8 / 16, most significant first, no leading zero, as many as the digit count announced to the padding code = ceil(bit_width / bits per digit); Display hands exactly the denoted number to dashu_int::UBig (`?` for NaN and for exponents above 2^40, a limit of the code), whose decimal text is specified by the extracted dec_digits (proved: the decimal digits of the number) and compared with the real text on every run. Natural -> f64 (C12_nat_to_f64*): the bit pattern is that of Flocq's correctly rounded conversion binary_normalize mode_NE of the exact value (round to nearest, ties to even; +infinity when the rounded value reaches 2^1024, including roundings that carry into the overflow; f64::NAN for NaN); exact for every number with at most 53 significant bits below 2^1024; C12_nat_to_f64_int (closed) is the integer part of the argument. F64, the counting type (C12_f64_*): +, -, << k (k <= 1023), >> k (k <= 1074) return Flocq's correctly rounded exact result (overflow to infinity), sums / scalings / conversions of values c * 2^j with c <= 2^53 are exact below 2^1024 and +inf from there on, and x << k of such a value is the correctly rounded exact integer product for every k (0 stays 0). sat_count::<F64> (C12_sat_f64*): for well-formed BDDs / BCDDs / ZBDDs with at most 53 levels and EVERY vars >= levels (with the scale-down by MIN_EXP = -1021 for vars >= 1021) the result is f64_of_N(exact count): exactly the count while it is below 2^1024 (in particular all vars <= 1023), +inf from there on, 0 stays 0; the same for whole histories on one reused cache (C12_sat_f64_history); beyond 53 levels the run from the terminal value 2^k (k <= 1022) is the evaluation of the same expression tree over the reals with Flocq's rounding after every addition and halving (C12_sat_f64_rounded_*). Kept caches (C12_cache_*, package C12s; model coq/DD/SatCache.v): a manager state (node table, gc_count, reorder_count) with events EGrow (anything that frees no node id: operations, clone/drop of handles, add_vars), EGc and EReorder (ANY well-formed table of the same kind afterwards: node ids freed and re-used for other functions later; counters as Manager::gc / Manager::reorder maintain them: reorder increments gc_count too) and ECount(cache id, vars, edge) on a table of caller-side cache objects: for EVERY number type and every valid history each call returns the value of the same call on a fresh cache without caching (C12_cache_history_correct; invariant: a cache tag is never ahead of gc_count, and a tag equal to gc_count means the content is exact for the current table), hence the number of satisfying assignments in exact arithmetic (C12_cache_history_exact), a well-formed Natural holding exactly that number, never NaN (C12_cache_history_natural, C12_sat_natural: the counting recursion over the model of bigint.rs), and in Saturating<uW> the number resp. the marker exactly when the type cannot hold 2^vars / ZBDD: the count (C12_cache_history_saturating, C12_sat_saturating_query); the epoch hypothesis hist_ok of the earlier history theorems is DERIVED from the step relation (C12_cache_same_gc_same_table, C12_cache_obs_ok = what the driver checks between snapshots); no entry stored before a collection / reordering is read afterwards (C12_cache_stale_entries_never_read); the two counts the closure of pick_cube_uniform_edge obtains through the cache are those of the cofactors (C12_cache_uni_counts); the tag rule is necessary: without the gc_count comparison, without the vars comparison, or with a reorder that does not increment gc_count a concrete valid history (node id 2 freed and re-used) returns a wrong count (C12_cache_*_refuted). vars below the number of levels (C12_sat_small_vars*): for EVERY vars, BDD / BCDD: if no path below the edge visits more than vars nodes (always so for vars >= levels; so whenever the function depends on at most vars variables) every halving is exact and result * 2^levels = 2^vars * #models; ZBDD: the quotient #models / 2^(levels - vars), exact iff the power of two divides. Non-vacuity examples for every group. On every run: stage 1 drives the real Natural through all operand pairs of the boundary set {0,1,2^k-1,2^k,2^k+1 | k in 31,32,63,64,65,127,128,129,191,192} (sum in both orders, all shifts {0,1,63,64,65,2^40,u64::MAX-1} in both directions, comparisons, conversions, text), conversions from all integer widths and back, f64 rounding at the precision/range limits, clone/clone_from between all representation shapes, random operands up to 512 bits in random op sequences, sat_count-like (a+b)>>1 accumulations, and Saturating<u64>/<u128>/F64 op sequences; every result is compared with the extracted model and with an independent Zarith oracle (kind=prop when the real result is not the exact value); the expected f64 of a Natural is the extracted Flocq conversion of the oracle's value, F64 op sequences are replayed by the extracted Flocq model on bit patterns next to OCaml doubles, the decimal text is compared with the extracted dec_digits; release and debug (overflow checks, debug assertions) builds. Stage 2 runs sat_count on real managers (bdd, bcdd, zbdd): all 256 three-variable functions under a seed-chosen order (thorough: all 6), cache-reuse histories on functions over 4..10 variables with shared sub-DAGs (sat_count(f,a); gc | reorder | drop+gc+rebuild with recycled node ids | add_vars | nothing; exactly one sat_count(g,b); sat_count(h,a) on every handle sharing nodes with g; alternations), random interleavings, small managers with adjacent-level swaps and handle turnover between queries under one vars value (freed node slots re-used by newly built functions); vars in {n, n+1, n+3, n+70, 1021, 1023, 1100}; types Saturating<u64>, Saturating<u128>, F64, Natural on reused caches and Natural on a fresh cache; every history runs on the index-based manager (release; a sample also in the debug profile) and on the pointer-based manager build (cfg-pointer, node ids = addresses); every result must equal the exact count of the handle's value table; every F64 result must be bit-identical to the correctly rounded exact count (the extracted f64_of_N) and to the extracted model of sat_count::<F64> (counting recursion with in-call cache over Flocq binary64, MIN_EXP scaling) run on the snapshot. Stage 3 (package C12s, driver ocaml/c12s_main.ml, snapshot after every operation): SatCountCache objects kept in a table of the harness (2-3 per number type, cache_all for odd ids) and queried in turn with vars in {n-3 .. n+1, n+3, 63, 64, n+70, 128, 1021, 1023, 1100}, interleaved with gc / set_var_order / a single level swap / add_vars / drop + gc + rebuild (node ids recycled while a cache still maps them) and with pick_cube_uniform on the same F64 objects: every call is replayed by the extracted sat_query (clear_if_invalid with the snapshot's gc_count, then the cached recursion over the extracted model of the number type: sat_ops 64 / 128, nat_ops = Num/Natural.v, f64_ops = Flocq) on the model's own copy of the cache object; the value AND the complete cache map (keys with the BCDD tag bit, values) must equal the real ones (the map is a public field); the value must equal the exact count of the value table (vars below the levels: whenever the function depends on at most vars variables; BDD/BCDD additionally #models * 2^vars / 2^levels whenever no path is longer than vars); every pair of consecutive snapshots must satisfy the extracted obs_ok_b (gc_count / reorder_count monotone, a reordering shows in gc_count, unchanged gc_count => every node still stored with the same children).",
-    "level_note": "Proved at model level; trusted: Coq kernel, extraction, the OCaml drivers, the Rust harnesses, and that Num/Natural.v / Num/F64Count.v / DD/SatCount.v / DD/SatCountF64.v mirror the code (checked by the lock-step runs on every check). AXIOMS: the floating-point theorems (names starting with C12_nat_to_f64, C12_f64_, C12_sat_f64; 30 of 116) depend on the classical axioms of Coq's real numbers used by Flocq, allow-listed by name in ALLOWED_AXIOMS exactly as in C10: ClassicalDedekindReals.sig_forall_dec, ClassicalDedekindReals.sig_not_dec, FunctionalExtensionality.functional_extensionality_dep, Classical_Prop.classic; every other theorem must be (and is) closed under the global context, enforced by audit_axioms on every run. Floating point: the identification of the hardware FPU's + - * with Flocq's binary64 operations and of libm's exp2 on integer arguments with the correctly rounded power of two (2^k for -1074 <= k <= 1023, +inf above, 0 from -1075 down) is by correspondence on bit patterns, not proved. Limits of the code visible in the F64 statements: x << k is the rounded product only for k <= 1023 or operands >= 1 (exp2(k) = inf above; sat_count only shifts integers), x >> k only for k <= 1074 (exp2(-k) = 0 below). Not proved: sat_count::<F64> for more than 53 levels beyond the rounded-evaluation theorem (vars <= 1020 resp. terminal value <= 2^1022); sat_count(vars) with vars below the number of variables the function depends on (no count is defined there: Saturating truncates at every halving, Natural yields NaN = the documented inexact right shift, F64 a fraction; the model does the same, stage 3 compares value and cache map); F64 with vars < levels; more than 53 levels do not occur in the generated histories (stage 2 would fall back to a 1e-9 relative comparison there). Correspondence only: the padding of all text formats with width/fill/alignment/alternate/plus/zero flags (pad_integral, fmt_nan_layout are modelled and compared on every run); the decimal digits come from dashu_int::UBig (external; specified by dec_digits). The digit loops of Natural::add exist in several variants in the code (in place / fresh vector, zipped / unzipped tails) which are one function in the model; clone/clone_from and memory management are run-time matters covered by the harness only. The epoch discipline of the manager (gc_count increases at every gc and reordering, node ids are not recycled otherwise) is the step relation step_ok / hist_valid of the C12_cache_* theorems (hist_ok of the older history theorems follows from it); that the real managers obey it is not proved: stage 3 checks its decidable consequence obs_ok_b between every two consecutive snapshots (gc_count and reorder_count are read from every snapshot). gc_count wrapping around after 2^64 collections is not modelled. Observation (outside the quantifier vars >= n, not in the generated histories, reported in notes/C12s.md): a ZBDD with at least 64 levels counted as Saturating<u64> with vars < levels returns the marker when the path count exceeds u64 although the quotient is small (70 variables, tautology, sat_count(3) = u64::MAX; exact 8 as u128 / Natural / F64).",
+    "level_text": "118 theorems in coq/Props/C12.v (checked by coqc on every run, Print Assumptions audited: 88 closed under the global context; the 30 floating-point theorems C12_nat_to_f64*, C12_f64_*, C12_sat_f64* depend on Flocq's classical axioms only, allow-listed by name). Natural (C12_nat_*), for unbounded operands satisfying the representation invariant Inv (which implies the code's check_inv and is decidable): nat_add = exact sum, NaN iff an operand is NaN or the exponent of the sum reaches u64::MAX; shl = multiplication by 2^k (NaN iff exponent overflow); shr = exact quotient, NaN iff a 1 bit would be shifted out; partial_cmp = order of the denoted numbers (None iff NaN); eq and the hashed data are canonical (equal iff same number, NaN = NaN); From<u8..u128> and from_le_digits denote their argument; TryFrom -> u64/u128 is Some iff the number fits; bit_width = 1 + floor(log2); the Binary output is `?` exactly for NaN and otherwise the bits of the number without leading zeros; every operation preserves Inv. Saturating<uW> (C12_su_*): add and << return the exact result below the marker T::MAX and the marker otherwise, the marker absorbs, >> and - of in-range values are exact. sat_count (C12_sat_*): the BDD / BCDD / ZBDD recursions in exact arithmetic return 2^(vars-levels) * #satisfying assignments; every halving (a+b)>>1 is exact; the in-call cache and a cache object reused over any history of calls (other handles, gc, reordering, added variables, other vars; hypothesis: equal gc_count of consecutive calls means the node table was only extended) are transparent for EVERY number type, hence exact counts for whole histories; an entry is used only under the (gc_count, vars) it was stored under; Saturating<uW> runs: BDD and BCDD exact while 2^vars is representable and the marker otherwise (0 stays 0), ZBDD exact while the count is representable and the marker otherwise. Text (C12_nat_fmt_*): Octal / LowerHex / UpperHex (the digit loop fmt_pow2 for every 1 <= bits per digit <= 63) write `?` exactly for NaN and otherwise the digits of the number in base 8 / 16, most significant first, no leading zero, as many as the digit count announced to the padding code = ceil(bit_width / bits per digit); Display hands exactly the denoted number to dashu_int::UBig (`?` for NaN and for exponents above 2^40, a limit of the code), whose decimal text is specified by the extracted dec_digits (proved: the decimal digits of the number) and compared with the real text on every run. Natural -> f64 (C12_nat_to_f64*): the bit pattern is that of Flocq's correctly rounded conversion binary_normalize mode_NE of the exact value (round to nearest, ties to even; +infinity when the rounded value reaches 2^1024, including roundings that carry into the overflow; f64::NAN for NaN); exact for every number with at most 53 significant bits below 2^1024; C12_nat_to_f64_int (closed) is the integer part of the argument. F64, the counting type (C12_f64_*): +, -, << k (k <= 1023), >> k (k <= 1074) return Flocq's correctly rounded exact result (overflow to infinity), sums / scalings / conversions of values c * 2^j with c <= 2^53 are exact below 2^1024 and +inf from there on, and x << k of such a value is the correctly rounded exact integer product for every k (0 stays 0). sat_count::<F64> (C12_sat_f64*): for well-formed BDDs / BCDDs / ZBDDs with at most 53 levels and EVERY vars >= levels (with the scale-down by MIN_EXP = -1021 for vars >= 1021) the result is f64_of_N(exact count): exactly the count while it is below 2^1024 (in particular all vars <= 1023), +inf from there on, 0 stays 0; the same for whole histories on one reused cache (C12_sat_f64_history); beyond 53 levels the run from the terminal value 2^k (k <= 1022) is the evaluation of the same expression tree over the reals with Flocq's rounding after every addition and halving (C12_sat_f64_rounded_*). Kept caches (C12_cache_*, package C12s; model coq/DD/SatCache.v): a manager state (node table, gc_count, reorder_count) with events EGrow (anything that frees no node id: operations, clone/drop of handles, add_vars), EGc and EReorder (ANY well-formed table of the same kind afterwards: node ids freed and re-used for other functions later; counters as Manager::gc / Manager::reorder maintain them: reorder increments gc_count too) and ECount(cache id, vars, edge) on a table of caller-side cache objects: for EVERY number type and every valid history each call returns the value of the same call on a fresh cache without caching (C12_cache_history_correct; invariant: a cache tag is never ahead of gc_count, and a tag equal to gc_count means the content is exact for the current table), hence the number of satisfying assignments in exact arithmetic (C12_cache_history_exact), a well-formed Natural holding exactly that number, never NaN (C12_cache_history_natural, C12_sat_natural: the counting recursion over the model of bigint.rs), and in Saturating<uW> the number resp. the marker exactly when the type cannot hold 2^vars / ZBDD: the count (C12_cache_history_saturating, C12_sat_saturating_query); the epoch hypothesis hist_ok of the earlier history theorems is DERIVED from the step relation (C12_cache_same_gc_same_table, C12_cache_obs_ok = what the driver checks between snapshots); no entry stored before a collection / reordering is read afterwards (C12_cache_stale_entries_never_read); the two counts the closure of pick_cube_uniform_edge obtains through the cache are those of the cofactors (C12_cache_uni_counts); the tag rule is necessary: without the gc_count comparison, without the vars comparison, or with a reorder that does not increment gc_count a concrete valid history (node id 2 freed and re-used) returns a wrong count (C12_cache_*_refuted). vars below the number of levels (C12_sat_small_vars*): for EVERY vars, BDD / BCDD: if no path below the edge visits more than vars nodes (always so for vars >= levels; so whenever the function depends on at most vars variables) every halving is exact and result * 2^levels = 2^vars * #models; ZBDD: the quotient #models / 2^(levels - vars), exact iff the power of two divides. Non-vacuity examples for every group. On every run: stage 1 drives the real Natural through all operand pairs of the boundary set {0,1,2^k-1,2^k,2^k+1 | k in 31,32,63,64,65,127,128,129,191,192} (sum in both orders, all shifts {0,1,63,64,65,2^40,u64::MAX-1} in both directions, comparisons, conversions, text), conversions from all integer widths and back, f64 rounding at the precision/range limits, clone/clone_from between all representation shapes, random operands up to 512 bits in random op sequences, sat_count-like (a+b)>>1 accumulations, and Saturating<u64>/<u128>/F64 op sequences; every result is compared with the extracted model and with an independent Zarith oracle (kind=prop when the real result is not the exact value); the expected f64 of a Natural is the extracted Flocq conversion of the oracle's value, F64 op sequences are replayed by the extracted Flocq model on bit patterns next to OCaml doubles, the decimal text is compared with the extracted dec_digits; release and debug (overflow checks, debug assertions) builds. Stage 2 runs sat_count on real managers (bdd, bcdd, zbdd): all 256 three-variable functions under a seed-chosen order (thorough: all 6), cache-reuse histories on functions over 4..10 variables with shared sub-DAGs (sat_count(f,a); gc | reorder | drop+gc+rebuild with recycled node ids | add_vars | nothing; exactly one sat_count(g,b); sat_count(h,a) on every handle sharing nodes with g; alternations), random interleavings, small managers with adjacent-level swaps and handle turnover between queries under one vars value (freed node slots re-used by newly built functions); vars in {n, n+1, n+3, n+70, 1021, 1023, 1100}; types Saturating<u64>, Saturating<u128>, F64, Natural on reused caches and Natural on a fresh cache; every history runs on the index-based manager (release; a sample also in the debug profile) and on the pointer-based manager build (cfg-pointer, node ids = addresses); every result must equal the exact count of the handle's value table; every F64 result must be bit-identical to the correctly rounded exact count (the extracted f64_of_N) and to the extracted model of sat_count::<F64> (counting recursion with in-call cache over Flocq binary64, MIN_EXP scaling) run on the snapshot. Stage 3 (package C12s, driver ocaml/c12s_main.ml, snapshot after every operation): SatCountCache objects kept in a table of the harness (2-3 per number type, cache_all for odd ids) and queried in turn with vars in {n-3 .. n+1, n+3, 63, 64, n+70, 128, 1021, 1023, 1100}, interleaved with gc / set_var_order / a single level swap / add_vars / drop + gc + rebuild (node ids recycled while a cache still maps them) and with pick_cube_uniform on the same F64 objects: every call is replayed by the extracted sat_query (clear_if_invalid with the snapshot's gc_count, then the cached recursion over the extracted model of the number type: sat_ops 64 / 128, nat_ops = Num/Natural.v, f64_ops = Flocq) on the model's own copy of the cache object; the value AND the complete cache map (keys with the BCDD tag bit, values) must equal the real ones (the map is a public field); the value must equal the exact count of the value table (vars below the levels: whenever the function depends on at most vars variables; BDD/BCDD additionally #models * 2^vars / 2^levels whenever no path is longer than vars); every pair of consecutive snapshots must satisfy the extracted obs_ok_b (gc_count / reorder_count monotone, a reordering shows in gc_count, unchanged gc_count => every node still stored with the same children).",
+    "level_note": "Proved at model level; trusted: Coq kernel, extraction, the OCaml drivers, the Rust harnesses, and that Num/Natural.v / Num/F64Count.v / DD/SatCount.v / DD/SatCountF64.v mirror the code (checked by the lock-step runs on every check). AXIOMS: the floating-point theorems (names starting with C12_nat_to_f64, C12_f64_, C12_sat_f64; 30 of 118) depend on the classical axioms of Coq's real numbers used by Flocq, allow-listed by name in ALLOWED_AXIOMS exactly as in C10: ClassicalDedekindReals.sig_forall_dec, ClassicalDedekindReals.sig_not_dec, FunctionalExtensionality.functional_extensionality_dep, Classical_Prop.classic; every other theorem must be (and is) closed under the global context, enforced by audit_axioms on every run. Floating point: the identification of the hardware FPU's + - * with Flocq's binary64 operations and of libm's exp2 on integer arguments with the correctly rounded power of two (2^k for -1074 <= k <= 1023, +inf above, 0 from -1075 down) is by correspondence on bit patterns, not proved. Limits of the code visible in the F64 statements: x << k is the rounded product only for k <= 1023 or operands >= 1 (exp2(k) = inf above; sat_count only shifts integers), x >> k only for k <= 1074 (exp2(-k) = 0 below). Not proved: sat_count::<F64> for more than 53 levels beyond the rounded-evaluation theorem (vars <= 1020 resp. terminal value <= 2^1022); sat_count(vars) with vars below the number of variables the function depends on (no count is defined there: Saturating truncates at every halving, Natural yields NaN = the documented inexact right shift, F64 a fraction; the model does the same, stage 3 compares value and cache map); F64 with vars < levels; more than 53 levels do not occur in the generated histories (stage 2 would fall back to a 1e-9 relative comparison there). Correspondence only: the padding of all text formats with width/fill/alignment/alternate/plus/zero flags (pad_integral, fmt_nan_layout are modelled and compared on every run); the decimal digits come from dashu_int::UBig (external; specified by dec_digits). The digit loops of Natural::add exist in several variants in the code (in place / fresh vector, zipped / unzipped tails) which are one function in the model; clone/clone_from and memory management are run-time matters covered by the harness only. The epoch discipline of the manager (gc_count increases at every gc and reordering, node ids are not recycled otherwise) is the step relation step_ok / hist_valid of the C12_cache_* theorems (hist_ok of the older history theorems follows from it); that the real managers obey it is not proved: stage 3 checks its decidable consequence obs_ok_b between every two consecutive snapshots (gc_count and reorder_count are read from every snapshot). gc_count wrapping around after 2^64 collections is not modelled. Observation (outside the quantifier vars >= n, not in the generated histories, reported in notes/C12s.md): a ZBDD with at least 64 levels counted as Saturating<u64> with vars < levels returns the marker when the path count exceeds u64 although the quotient is small (70 variables, tautology, sat_count(3) = u64::MAX; exact 8 as u128 / Natural / F64).",
 }
 
 # Flocq / Coq Reals (exactly the four axioms C10 lists); allowed for the floating-point theorems only
